@@ -122,7 +122,11 @@ def arg_to_proto(
     if isinstance(value, (bool, np.bool_)):
         msg.arg_value.bool_value = bool(value)
     elif isinstance(value, FLOAT_TYPES):
-        msg.arg_value.float_value = float(value)
+        if isinstance(value, (int, np.integer)) and float(np.float32(value)) != float(value):
+            # A float32 cannot hold this integer (a bitmask, a count): it is not to be rounded.
+            msg.arg_value.double_value = float(value)
+        else:
+            msg.arg_value.float_value = float(value)
     elif isinstance(value, complex):
         msg.arg_value.complex_value.real_value = value.real
         msg.arg_value.complex_value.imag_value = value.imag
